@@ -11,6 +11,7 @@ import threading
 import traceback
 
 from engineio import packet as eio_packet
+from engineio import payload as eio_payload
 
 from . import refcodec as R
 from .vtime import VirtualLoop, settle
@@ -120,6 +121,23 @@ class Transport:
             if pkt.packet_type != eio_packet.MESSAGE:
                 continue
             self.raw.append(pkt.data)
+            # what the transports of python-engineio do with a queued packet
+            # before it leaves the process: long-polling puts it into a
+            # payload that is encoded as UTF-8, websocket sends the encoded
+            # packet as a text (UTF-8) or binary frame.  A packet that cannot
+            # be serialised that way never reaches the client (and takes the
+            # rest of its payload with it).
+            try:
+                enc = pkt.encode()
+                if isinstance(enc, str):
+                    enc.encode('utf-8')
+                    eio_payload.Payload(packets=[pkt]).encode().encode(
+                        'utf-8')
+            except Exception as e:
+                self.decode_errors.append((
+                    repr(pkt.data)[:200], 'the transport cannot serialise '
+                    'this packet: %r' % e))
+                continue
             try:
                 d = self.asm.feed(pkt.data)
             except Exception as e:
